@@ -311,8 +311,9 @@ class ExecMixin:
                             elif isinstance(c, DictC):
                                 self.dict_set(st3, o2, i, nv)
                             elif isinstance(c, ObjC):
-                                for _ in self.call_method(o2, '__setitem__', [i, nv], {}, st3, tgt):
-                                    pass
+                                for _, st4 in list(self.call_method(o2, '__setitem__', [i, nv], {}, st3, tgt)):
+                                    yield Outcome('normal', st4)
+                                continue
                             else:
                                 raise OutOfSubset('augmented subscript store')
                             yield Outcome('normal', st3)
